@@ -238,6 +238,14 @@ func (h *HttpServer) installStickyOnRequestNoCtx(r *http.Request, auth *AuthCont
 	// in cleanup.ReleaseLock. Same-session concurrent calls serialize
 	// here; different-session calls run in parallel.
 	entry.lock.Lock()
+	// The lock may have been held by a call (or a DELETE) that closed the
+	// session while this request was parked on it. The entry fetched above is
+	// then stale: its state's Close() has already run and the session must
+	// read as lost, not be handed to the handler. Re-check under the lock.
+	if !h.stickyRegistry.isLive(sid, entry) {
+		entry.lock.Unlock()
+		return cleanup, &SessionLostError{Reason: sessionLostNotFound}
+	}
 	sink.installResumed(entry, sid)
 	cleanup.entry = entry
 	_ = _expiresAt
